@@ -1093,7 +1093,7 @@ def _aliases(fn):
             n = st.targets[0].id
             value[n] = st.value
             site[n] = (order, loops, body, i)
-            if in_try:
+            if in_try and not isinstance(st.value, (ast.Name, ast.Constant)):   # (a copy of a name / a literal cannot raise: where it is evaluated does not matter)
                 banned.add(n)
         nested = isinstance(st, (ast.FunctionDef, ast.AsyncFunctionDef, ast.ClassDef))
         if nested:
